@@ -52,3 +52,74 @@ Print Assumptions C04_compiled_bytes_lex.
 Theorem C04_scanned_tokens_well_spelled : forall s, Forall tok_ok (scan s).
 Proof. exact scan_tok_ok. Qed.
 Print Assumptions C04_scanned_tokens_well_spelled.
+
+(** ** values end to end (Proofs/LexValues.v, Spec/NumValue.v) *)
+From PQL Require Import Model.Lexer Proofs.LexValues Spec.NumValue.
+(** a string: the PQL spelling of any byte string [v] lexes to a string token of value [v], and
+    what the writer prints for that value lexes, under the target dialect's rules, to one SQL
+    string token that decodes to [v] again - whatever bytes [v] holds *)
+Theorem C04_string_value_end_to_end : forall q v rest, (q = 34 \/ q = 39)%N ->
+  lex1 (str_quote q v ++ rest) = Tok KString v (List.length (str_quote q v)) /\
+  sql_lex ClickHouse (quote_sql_string v) = Some [SString v].
+Proof. intros q v rest Hq. split; [exact (string_roundtrip q v rest Hq)|exact (lex_quote_string_clickhouse v)]. Qed.
+Print Assumptions C04_string_value_end_to_end.
+
+(** a quoted name: any newline-free name between backticks (backticks doubled) lexes to that name,
+    and its SQL spelling lexes back to one quoted-identifier token carrying it *)
+From PQL Require Import Proofs.LexSpec.
+Theorem C04_name_value_end_to_end : forall v rest, no_newline v -> (match rest with c :: _ => c <> 96%N | [] => True end) ->
+  lex1 (bq_quote v ++ rest) = Tok KQuotedIdentifier v (List.length (bq_quote v)) /\
+  sql_lex ClickHouse (quote_ident v) = Some [SQuoted v].
+Proof. intros v rest H1 H2. split; [exact (quoted_roundtrip v rest H1 H2)|exact (lex_quote_ident_clickhouse v)]. Qed.
+Print Assumptions C04_name_value_end_to_end.
+
+(** a number: the spelling handed to SQL (the token's normalised value, printed verbatim as the
+    number piece) denotes the number the PQL source text denotes, whether that was written in
+    decimal, hexadecimal, with leading zeros, a leading point or an exponent *)
+Theorem C04_number_value : forall s t, In t (scan s) -> tkind t = KNumber ->
+  num_q (tvalue t) = src_num_q (slice s (tstart t) (tend t)).
+Proof. exact scanned_number_q. Qed.
+Print Assumptions C04_number_value.
+
+(** ** the structure of the output depends only on the structure of the program (Proofs/Payload.v)
+    [sk_stmts] is the skeleton of a program: every position forgotten; the characters of string and
+    number literals forgotten; names forgotten wherever they are content - table, alias, `as`,
+    render and column names, quoted names, unquoted names that are not a bound name, a constant
+    (true/false/null) or a join alias - and kept where they are structure (function names, join
+    kinds, let names, references to bound names; the quoted flag is structure too).
+    Two programs with the same skeleton compile alike, for any parameters: both are rejected, or
+    both succeed with piece lists that agree piece by piece up to the payload of identifier, string
+    and number pieces ([sh] forgets exactly that payload). *)
+From PQL Require Import Proofs.Payload.
+Theorem C04_same_structure_same_pieces : forall s1 s2 params ss1 ss2,
+  no_empty_let ss1 -> no_empty_let ss2 -> bound (map fst params) [] = false ->
+  sk_stmts (map fst params) false ss1 = sk_stmts (map fst params) false ss2 ->
+  match compile_stmts s1 params ss1, compile_stmts s2 params ss2 with
+  | Ok a, Ok b => sh a = sh b
+  | Err _, Err _ => True
+  | _, _ => False
+  end.
+Proof. exact same_skeleton_same_pieces. Qed.
+Print Assumptions C04_same_structure_same_pieces.
+
+(** on bytes, for sources: the SQL tokens the dialect's lexer reads from the two returned texts
+    have the same shapes one by one - same words and punctuation, and a quoted identifier, string
+    or number token wherever the other text has one; so changing content changes exactly the
+    corresponding tokens and can neither open a comment, close a quote nor start a clause.
+    ([no_empty_let]: no let statement binds the empty quoted name ``; F1 excluded as before.) *)
+Theorem C04_structure_independent_of_content : forall s1 s2 ss1 ss2 ps1,
+  parse s1 = ParseOk ss1 -> parse s2 = ParseOk ss2 ->
+  Forall names_ok_stmt ss1 -> Forall names_ok_stmt ss2 -> no_empty_let ss1 -> no_empty_let ss2 ->
+  sk_stmts [] false ss1 = sk_stmts [] false ss2 ->
+  compile [] s1 = COk ps1 ->
+  exists ps2 ts1 ts2, compile [] s2 = COk ps2 /\
+    sql_lex ClickHouse (render ps1) = Some ts1 /\ sql_lex ClickHouse (render ps2) = Some ts2 /\
+    map shape_of ts1 = map shape_of ts2.
+Proof. exact structure_independent_of_content. Qed.
+Print Assumptions C04_structure_independent_of_content.
+
+(** the program and its skeleton: one-sided form, from which the above follows *)
+Theorem C04_skeleton_compiles_alike : forall source source' params ss, no_empty_let ss -> bound (map fst params) [] = false ->
+  res_sim (compile_stmts source params (sk_stmts (map fst params) false ss)) (compile_stmts source' params ss).
+Proof. exact compile_stmts_sk. Qed.
+Print Assumptions C04_skeleton_compiles_alike.
